@@ -784,6 +784,9 @@ fn test_exp10() {
 ///
 /// This function returns the value of *e* raised to ***a***.
 pub fn exp(d: P32E2) -> P32E2 {
+    if d.is_nar() {
+        return NAR;
+    }
     let qf = (d * R_LN2).round();
     let q = i32::from(qf);
 
